@@ -232,7 +232,7 @@ def main():
                 "engine": "pbt-runner",
                 "level_claimed": {"category": "exploration",
                                   "text": text + (" " + EXTRA[pid] if pid in EXTRA else "")
-                                  + " Checked against 355 seeded regressions and 160 benign rewrites (DESIGN.md "
+                                  + " Checked against 395 seeded regressions and 200 benign rewrites (DESIGN.md "
                                     "sections 10-11).",
                                   "design_ref": ref + ", §9-§11"},
                 "level_note": note,
